@@ -173,10 +173,12 @@ class VMFCACGMMTrainer:
                 /= np.einsum("...kt->...t", initialization)[..., None, :]
 
         if saliency is None:
-            saliency = np.ones_like(initialization[..., 0, :])
+            saliency = np.ones_like(
+                initialization[..., 0, :], dtype=observation.real.dtype)
 
         model = None
-        quadratic_form = np.ones_like(initialization)
+        quadratic_form = np.ones_like(
+            initialization, dtype=observation.real.dtype)
         affiliation = initialization
         for iteration in range(iterations):
             if model is not None:
